@@ -1435,7 +1435,7 @@ def run(ctx):
     ctx.extra["code_variant"] = cfg
     ctx._c14_cfg = cfg
     ctx._c14_reg_cases = []
-    n_seq = ctx.n(40, 380)
+    n_seq = ctx.n(40, 330)
     budget_each = 0.8
     batch = []
     seen_sigs = set()
